@@ -206,7 +206,9 @@ func TestVerif_Daemon(t *testing.T) {
 		return
 	}
 	scratch := vEnv("VERIF_SCRATCH", t.TempDir())
-	c.Case(0, func() interface{} { return "real daemon on a private bus: planted debris, kill in mid-recording, restart, bad frames, throttling" }, func() {
+	c.Case(0, func() interface{} {
+		return "real daemon on a private bus: planted debris, kill in mid-recording, restart, bad frames, throttling"
+	}, func() {
 		dir, _ := ioutil.TempDir(scratch, "daemon-")
 		// unix socket paths are limited to ~100 bytes
 		short, err := ioutil.TempDir("/tmp", "vd")
